@@ -517,6 +517,15 @@ func (v *Value) Arg() Arg {
 		return valueArg(v.Name, v.Value, v.Subtype)
 	}
 
+	// The same goes for a value that is declared with an interface type and
+	// holds a bare concrete value (v.Value = reflect.ValueOf(impl)).
+	if v.Value.IsValid() && v.Type != nil && v.Type.Kind() == reflect.Interface &&
+		v.Value.Type().AssignableTo(v.Type) {
+		rv := reflect.New(v.Type).Elem()
+		rv.Set(v.Value)
+		return valueArg(v.Name, rv, v.Subtype)
+	}
+
 	switch v.Kind() {
 	case ValueNamed:
 		return NamedSubtype(v.Name, v.Value.Interface(), v.Subtype)
